@@ -262,6 +262,8 @@ def replay(run, payload):
         fake = {'before': res['before'], 'after': res['steps'][-1]['after'], 'steps': res['steps']}
         judge(run, scn, fake, victims, '?', sched, 'sequential-state')
         return
+    if isinstance(sched, str) and sched.startswith('failing-move:'):
+        sched = dict(schedules_systematic(nops=10)).get(sched[len('failing-move:'):], [0, 1] * 40)
     if isinstance(sched, str):
         sched = dict(schedules_systematic()).get(sched, [0, 1] * 40) if sched != 'free-running' else None
     res = sandbox.execute_concurrent({k: v for k, v in scn.items() if k != 'steps'}, steps, sched)
